@@ -4,30 +4,34 @@ from vp import memfs
 from hed.tools.remodeling import backup_manager as bm
 from hed.tools.util import io_util
 
-F = ["/data/sub1/sub1_task_a_events.tsv", "/data/sub1/sub1_task_b_events.tsv", "/data/sub2_task_a_events.tsv"]
-TASK_OF = ["a", "b", "a"]
-KMAX = 30
+F = ["/data/sub1/sub1_task_a_events.tsv", "/data/sub1/sub1_task_b_events.tsv", "/data/sub2_task_a_events.tsv",
+     "/data/sub3/ses1/sub3_task_b_events.tsv"]
+TASK_OF = ["a", "b", "a", "b"]
+NF = 4
+KMAX = 40
 TASKSETS = [[], ["a"], ["b"], ["a", "b"], ["zz"]]
 
 
 def _fresh(nfiles, c):
     fs = memfs.MemFS()
     fs.makedirs("/data/sub1")
-    for i in range(3):
+    fs.makedirs("/data/sub3/ses1")
+    for i in range(NF):
         fs._set(F[i], c[i])
     return fs, [F[i] for i in range(nfiles)]
 
 
-def crash_backup(k: int, cut: int, nfiles: int, c0: str, c1: str, c2: str) -> bool:
+def crash_backup(k: int, cut: int, nfiles: int, c0: str, c1: str, c2: str, c3: str) -> bool:
     """
     pre: 0 <= k <= KMAX
     pre: -3 <= cut <= 3
     pre: 1 <= nfiles <= R.N(3)
-    pre: len(c0) <= 2 and len(c1) <= 2 and len(c2) <= 2
+    pre: len(c0) <= 2 and len(c1) <= 2 and len(c2) <= 2 and len(c3) <= 2
+    pre: nfiles >= 4 or c3 == ""
     pre: R.env_int("VP_K") is None or k % 4 == R.env_int("VP_K")
     post: _
     """
-    c = [c0, c1, c2]
+    c = [c0, c1, c2, c3]
     fs, files = _fresh(nfiles, c)
     with memfs.Patch(fs, [bm, io_util]):
         man = bm.BackupManager("/data")
@@ -66,26 +70,29 @@ def crash_backup(k: int, cut: int, nfiles: int, c0: str, c1: str, c2: str) -> bo
 
 
 def _apply(fs, op, new):
-    # op 0: nothing; 1..3 modify file op-1; 4..6 delete file op-4
-    if 1 <= op <= 3:
+    # op 0: nothing; 1..4 modify file op-1; 5..8 delete file op-5
+    if 1 <= op <= NF:
         fs._set(F[op - 1], new)
-    elif 4 <= op <= 6:
-        p = F[op - 4]
+    elif NF + 1 <= op <= 2 * NF:
+        p = F[op - NF - 1]
         if p in fs.files:
             del fs.files[p]
             fs.order.remove(p)
 
 
-def restore_ops(nfiles: int, c0: str, c1: str, c2: str, op1: int, op2: int, n1: str, n2: str, tsel: int) -> bool:
+def restore_ops(nfiles: int, c0: str, c1: str, c2: str, c3: str, op1: int, op2: int, op3: int, n1: str, n2: str,
+                n3: str, tsel: int) -> bool:
     """
-    pre: 1 <= nfiles <= 3
-    pre: len(c0) <= 2 and len(c1) <= 2 and len(c2) <= 2 and len(n1) <= 2 and len(n2) <= 2
-    pre: 0 <= op1 <= 6 and 0 <= op2 <= 6
+    pre: 1 <= nfiles <= R.N(3)
+    pre: len(c0) <= 2 and len(c1) <= 2 and len(c2) <= 2 and len(c3) <= 2
+    pre: len(n1) <= 2 and len(n2) <= 2 and len(n3) <= 2
+    pre: 0 <= op1 <= 2 * NF and 0 <= op2 <= 2 * NF and 0 <= op3 <= 2 * NF
+    pre: R.M(2) >= 3 or (op3 == 0 and n3 == "")
     pre: 0 <= tsel <= 4
     pre: R.env_int("VP_K") is None or tsel == R.env_int("VP_K")
     post: _
     """
-    c = [c0, c1, c2]
+    c = [c0, c1, c2, c3]
     fs, files = _fresh(nfiles, c)
     with memfs.Patch(fs, [bm, io_util]):
         man = bm.BackupManager("/data")
@@ -93,17 +100,18 @@ def restore_ops(nfiles: int, c0: str, c1: str, c2: str, op1: int, op2: int, n1: 
             return False
         _apply(fs, op1, n1)
         _apply(fs, op2, n2)
-        before = [fs.files.get(F[i]) for i in range(3)]
-        present = [F[i] in fs.files for i in range(3)]
+        _apply(fs, op3, n3)
+        before = [fs.files.get(F[i]) for i in range(NF)]
+        present = [F[i] in fs.files for i in range(NF)]
         # an existing backup of the same name is never overwritten
-        if man.create_backup([F[i] for i in range(3) if present[i]], "bk") is not False:
+        if man.create_backup([F[i] for i in range(NF) if present[i]], "bk") is not False:
             return False
         man3 = bm.BackupManager("/data")
-        if man3.create_backup([F[i] for i in range(3) if present[i]], "bk") is not False:
+        if man3.create_backup([F[i] for i in range(NF) if present[i]], "bk") is not False:
             return False
         tasks = TASKSETS[tsel]
         man3.restore_backup("bk", task_names=tasks, verbose=False)
-        for i in range(3):
+        for i in range(NF):
             selected = i < nfiles and (tasks == [] or TASK_OF[i] in tasks)
             if selected:
                 if F[i] not in fs.files or fs.files[F[i]] != c[i]:
@@ -114,9 +122,9 @@ def restore_ops(nfiles: int, c0: str, c1: str, c2: str, op1: int, op2: int, n1: 
                 if present[i] and fs.files[F[i]] != before[i]:
                     return False
         # restoring twice equals restoring once
-        snap = [fs.files.get(F[i]) for i in range(3)]
+        snap = [fs.files.get(F[i]) for i in range(NF)]
         man3.restore_backup("bk", task_names=tasks, verbose=False)
-        for i in range(3):
+        for i in range(NF):
             if fs.files.get(F[i]) != snap[i]:
                 return False
         return True
@@ -140,18 +148,21 @@ _STUBS = ["MemFS in-memory file system swapped into backup_manager/io_util modul
 HARNESSES = [
     R.H("crash_backup", _T,
         quick=R.tier(cells=R.int_cells("VP_K", 0, 3), env={"VP_N": 3}, timeout=200,
-                     bound="crash index k in [0,30] (an uninterrupted run takes fewer steps), torn-write cut in "
+                     bound="crash index k in [0,40] (an uninterrupted run takes fewer steps), torn-write cut in "
                            "[-3,3], 1-3 files with any contents of <=2 characters"),
-        thorough=R.tier(cells=R.int_cells("VP_K", 0, 3), env={"VP_N": 3}, timeout=900, bound="same as quick"),
+        thorough=R.tier(cells=R.int_cells("VP_K", 0, 3), env={"VP_N": 4}, timeout=1200,
+                        bound="same with 1-4 files (a fourth file two directories deep)"),
         what="after a crash at any file-system step of create_backup (torn writes included) a new BackupManager "
              "either refuses/does not list the backup or lists it with every recorded file present and equal to "
              "the original; an uninterrupted run lists all files",
         oracle="inline: listed => complete", stubs=_STUBS,
         outside="fsync/reordering, run_remodel* CLIs, real file systems"),
     R.H("restore_ops", _T,
-        quick=R.tier(cells=R.int_cells("VP_K", 0, 4), timeout=200,
-                     bound="1-3 backed-up files, 2 operations from {nothing, modify i, delete i} with any new "
-                           "contents <=2 chars, restore of 5 task selections"),
+        quick=R.tier(cells=R.int_cells("VP_K", 0, 4), env={"VP_N": 3, "VP_M": 2}, timeout=300,
+                     bound="1-3 backed-up files out of 4 data files, 2 operations from {nothing, modify i, delete i} with "
+                           "any new contents <=2 chars, restore of 5 task selections"),
+        thorough=R.tier(cells=R.int_cells("VP_K", 0, 4), env={"VP_N": 4, "VP_M": 3}, timeout=1800,
+                        bound="1-4 backed-up files, 3 operations"),
         what="restore returns every selected backed-up file to its content at backup time, touches nothing else, "
              "is idempotent; an existing backup name is never overwritten",
         oracle="inline frame/restore predicate", stubs=_STUBS,
